@@ -161,3 +161,18 @@ Section Slp.
       destruct H as [H1 H2]; try discriminate; congruence.
   Qed.
 End Slp.
+
+(* the declarative sum commutes with any homomorphism of the score monoid (e.g. exp from
+   (log-probabilities, +, 0) to (probabilities, *, 1)) *)
+Lemma spec_slp_hom {A B : Type} (op : A -> A -> A) (unit : A) (op' : B -> B -> B) (unit' : B)
+  (h : A -> B) : h unit = unit' -> (forall x y, h (op x y) = op' (h x) (h y)) ->
+  forall V eos lp toks,
+    h (spec_slp op unit V eos lp toks) = spec_slp op' unit' V eos (map (map h) lp) toks.
+Proof.
+  intros Hu Hop V eos lp toks. revert lp. induction toks as [|k toks IH]; intros lp; [destruct lp; exact Hu|].
+  destruct lp as [|row lp]; [exact Hu|]. cbn [map spec_slp].
+  assert (Hn : h (nth (Z.to_nat k) row unit) = nth (Z.to_nat k) (map h row) unit')
+    by (rewrite <- Hu; symmetry; apply map_nth).
+  destruct eos as [e|]; [destruct (k =? e)%Z|]; destruct (in_vocab V k);
+    rewrite ?Hop, ?IH, ?Hn, ?Hu; reflexivity.
+Qed.
